@@ -168,6 +168,34 @@ def canonicalRule (a : Arch) (bytes : Nat) (savesFp : Bool) : String :=
 def leafRule (a : Arch) : String :=
   if a.isMips then s!".cfa: $sp 0 + .ra: $ra" else s!".cfa: sp 0 + .ra: lr"
 
+/-! The canonical rules as the evaluator sees them: the CLASSIFIED tokens (`tokenize`, Walk/Cfi.lean)
+    of the texts above. `canonicalRule` / `leafRule` are only their renderings in the dumper's
+    spelling; the precondition compares token lists, so that the C04 theorems can evaluate a rule
+    for a symbolic frame size (an interpolated string does not reduce; a token list does). -/
+
+/-- the stack-pointer token: `$esp` / `$rsp` / `$sp` (x86, x86-64, MIPS), bare `sp` elsewhere -/
+def spTok (a : Arch) : ETok :=
+  if a = .x86 ∨ a = .amd64 ∨ a.isMips then .dollar a.spName else .bare a.spName
+
+/-- `tokenize (canonicalRule a bytes savesFp)`; `-W` is the `u64` bit pattern of the literal -/
+def canonicalToks (a : Arch) (bytes : Nat) (savesFp : Bool) : List RTok :=
+  [.label .cfa, .tok (spTok a), .tok (.lit bytes), .tok .add,
+   .label .ra, .tok .cfa, .tok (.lit (2 ^ 64 - a.ptr)), .tok .add, .tok .deref] ++
+  (if savesFp then
+     [.label (.other a.fpName), .tok .cfa, .tok (.lit (2 ^ 64 - 2 * a.ptr)), .tok .add, .tok .deref]
+   else [])
+
+/-- `tokenize (leafRule a)` -/
+def leafToks (a : Arch) : List RTok :=
+  [.label .cfa, .tok (if a.isMips then .dollar "sp" else .bare "sp"), .tok (.lit 0), .tok .add,
+   .label .ra, .tok (if a.isMips then .dollar "ra" else .bare "lr")]
+
+/-- `ptr_auth_strip` of a recovered return address / frame pointer (ARM64 only) -/
+def stripOf (a : Arch) (mask v : Nat) : Nat :=
+  match a with
+  | .arm64 | .arm64old => v &&& mask
+  | _ => v
+
 /-- the STACK CFI record covering `instr`, through the module and CFI range tables -/
 def cfiRecordAt (w : World) (instr : Nat) : Option CfiRec :=
   match moduleAt (modTable w.mods) instr with
@@ -181,34 +209,39 @@ def cfiRecordAt (w : World) (instr : Nat) : Option CfiRec :=
         | none => none
     | _, _ => none
 
-def linkCfi (w : World) (a : Arch) (mem : Mem) (instr sp fp lr : Nat) (first : Bool) (e : Exp) : Bool :=
+def linkCfi (w : World) (a : Arch) (mask : Nat) (mem : Mem) (instr sp fp lr : Nat) (first : Bool) (e : Exp) : Bool :=
   let p := a.ptr
   decide (4096 ≤ e.ret) && decide (e.sp ≤ a.regMax) && decide (e.ret ≤ a.regMax) &&
   match cfiRecordAt w instr with
   | none => false
   | some rec =>
+    let toks := tokenize rec.init
     rec.adds.isEmpty &&
-    if first ∧ a.leafOk ∧ rec.init = leafRule a then
-      decide (e.sp = sp) && decide (e.ret = lr) && e.fp == some fp
+    if first ∧ a.leafOk ∧ toks = leafToks a then
+      decide (e.sp = sp) && decide (lr ≤ a.regMax) && decide (e.ret = stripOf a mask lr) &&
+      e.fp == some (stripOf a mask fp)
     else
       let bytes := e.sp - sp
-      decide (sp < e.sp) && decide (p ≤ bytes) && mem.read (e.sp - p) p == some e.ret &&
-      (if rec.init = canonicalRule a bytes true then
-         decide (2 * p ≤ bytes) && mem.read (e.sp - 2 * p) p == e.fp && e.fp.isSome
-       else rec.init = canonicalRule a bytes false && e.fp == some fp)
+      decide (sp < e.sp) && decide (p ≤ bytes) &&
+      (mem.read (e.sp - p) p).map (stripOf a mask) == some e.ret &&
+      (if toks = canonicalToks a bytes true then
+         decide (2 * p ≤ bytes) && (mem.read (e.sp - 2 * p) p).map (stripOf a mask) == e.fp && e.fp.isSome
+       else toks = canonicalToks a bytes false && e.fp == some (stripOf a mask fp))
 
-def preCfiFrom (w : World) (a : Arch) (os : Os) (mem : Mem) : Nat → Nat → Nat → Nat → Bool → List Exp → Bool
+def preCfiFrom (w : World) (a : Arch) (os : Os) (mask : Nat) (mem : Mem) :
+    Nat → Nat → Nat → Nat → Bool → List Exp → Bool
   | instr, sp, fp, _, _, [] =>
     -- the outermost frame: no CFI for it, a zero frame pointer, zeros up to the end of the stack
     !mem.inRange sp ||
       ((cfiRecordAt w instr).isNone && decide (fp = 0) && decide (16 < mem.base) && zerosFrom mem a.ptr sp)
   | instr, sp, fp, lr, first, e :: rest =>
-    mem.inRange sp && linkCfi w a mem instr sp fp lr first e &&
-    preCfiFrom w a os mem (e.ret - a.adj) e.sp (e.fp.getD 0) 0 false rest
+    mem.inRange sp && linkCfi w a mask mem instr sp fp lr first e &&
+    preCfiFrom w a os mask mem (e.ret - a.adj) e.sp (e.fp.getD 0) 0 false rest
 
-def preCfi (w : World) (a : Arch) (os : Os) (mem : Mem) (ctx : Ctx) (chain : List Exp) : Bool :=
+/-- `mask` = the walk's ptr-auth mask (`Env.mask`; used on ARM64 only) -/
+def preCfi (w : World) (a : Arch) (os : Os) (mask : Nat) (mem : Mem) (ctx : Ctx) (chain : List Exp) : Bool :=
   ctx.valid.isNone &&
-  preCfiFrom w a os mem ctx.ip ctx.sp (ctx.raw a a.fpName)
+  preCfiFrom w a os mask mem ctx.ip ctx.sp (ctx.raw a a.fpName)
     (ctx.raw a (if a.isMips then "ra" else "lr")) true chain
 
 /-- symbol files without any STACK CFI record -/
@@ -223,7 +256,7 @@ def Pre (w : World) (env : Env) (a : Arch) (os : Os) (t : Technique) (mem : Mem)
   match t with
   | .fp => noCfi w && ctx.valid.isNone && preFp a os env.mask mem ctx.sp (ctx.raw a a.fpName) chain
   | .scan => noCfi w && preScan env a os mem ctx chain
-  | .cfi => preCfi w a os mem ctx chain
+  | .cfi => preCfi w a os env.mask mem ctx chain
   -- per-frame techniques need the STACK WIN records: see `PreW` (Walk/LayoutMixed.lean)
   | .win | .mixed => false
 
